@@ -200,7 +200,7 @@ theorem step_conns_length (s : Sys) (e : Ev) (h : s.lis.state ≠ ListenerRunnin
     | bytes i => simp only; split <;> simp [modifyAt_length]
     | decoded i => simp only; split <;> simp [modifyAt_length]
     | respDone i => simp only; split <;> simp [modifyAt_length]
-    | signal stage => simp only; split <;> simp
+    | signal stage => simp only [onShutdownWaits, onShutdownBroadcasts, ↓reduceIte]; split <;> simp
     | tick d => rfl
     | exit => simp only; split <;> rfl
 
@@ -239,7 +239,7 @@ theorem step_exitInv (s : Sys) (e : Ev) (h : exitInv s) : exitInv (step s e) := 
     | bytes i => simp only at hb; split at hb <;> simp [hex'] at hb
     | decoded i => simp only at hb; split at hb <;> simp [hex'] at hb
     | respDone i => simp only at hb; split at hb <;> simp [hex'] at hb
-    | signal stage => simp only at hb; split at hb <;> simp [hex'] at hb
+    | signal stage => simp only [onShutdownWaits, onShutdownBroadcasts, ↓reduceIte] at hb; split at hb <;> simp [hex'] at hb
     | tick d => simp [hex'] at hb
     | exit =>
       simp only at hb ⊢
@@ -285,7 +285,7 @@ theorem step_wf (s : Sys) (e : Ev) (h : s.wf) : (step s e).wf := by
         have := countActive_modifyAt s.conns i (fun c => { c with phase := .idle, served := c.served + 1 }) .active hp .idle (fun _ => rfl)
         simp only [this, h]; simp
       · exact h
-    | signal stage => simp only; split <;> simp [countActive_map_goAway, h]
+    | signal stage => simp only [onShutdownWaits, onShutdownBroadcasts, ↓reduceIte]; split <;> simp [countActive_map_goAway, h]
     | tick d => exact h
     | exit => simp only; split <;> exact h
 
